@@ -361,6 +361,56 @@ def canonicalise_renamed_functions(raw, vocab_sigs, strip_lt, log=None):
     return ren
 
 
+def canonicalise_generics(raw, vocabulary, strip_lt, log=None):
+    """A type of the crate that gained type parameters (a boxed `dyn Iterator` field made generic, say): its
+    functions are `Type::<I>::f` / `<Type<I> as Trait>::f` now.  When erasing the parameter list gives back a
+    vocabulary function that is otherwise missing, the parameter lists of that type are erased everywhere (definitions
+    and instantiated call sites alike) - the rules are stated over the type, not over how it is parameterised."""
+    import re as _re
+    voc = set(vocabulary)
+    cur = {strip_lt(b["path"]) for b in raw["bodies"]}
+    types = set()
+    for p in cur:
+        if p in voc:
+            continue
+        for m in _re.finditer(r"((?:[a-z_][a-z0-9_]*::)+[A-Z]\w*)(?:::)?<([A-Z]\w*(?:, [A-Z]\w*)*)>", p):
+            ty = m.group(1)
+            if ty.startswith(("std::", "core::", "alloc::")):
+                continue
+            q = p[:m.start()] + ty + p[m.end():]
+            if q in voc and q not in cur:
+                types.add(ty)
+    if not types:
+        return []
+    s = json.dumps(raw)
+    for ty in sorted(types, key=len, reverse=True):
+        out, i = [], 0
+        pat = _re.compile(_re.escape(ty) + r"(?:::)?<")
+        while True:
+            m = pat.search(s, i)
+            if not m:
+                out.append(s[i:])
+                break
+            # do not cut a longer identifier (`TypeX<..>`): the match starts at a path boundary by construction of `ty`
+            out.append(s[i:m.start()] + ty)
+            j, depth = m.end(), 1
+            while j < len(s) and depth:
+                ch = s[j]
+                if ch == "<":
+                    depth += 1
+                elif ch == ">" and s[j - 1] != "-":
+                    depth -= 1
+                j += 1
+            i = j
+        s = "".join(out)
+    newraw = json.loads(s)
+    raw.clear()
+    raw.update(newraw)
+    if log:
+        log("type parameters erased from %s" % sorted(types))
+    return sorted(types)
+
+
 def load_vocabulary_sigs():
     p = os.path.join(os.path.dirname(os.path.abspath(__file__)), "vocabulary_sigs.json")
     if not os.path.exists(p):
